@@ -47,14 +47,15 @@ structure ErrOut (s s' : St) : Prop where
   ext : TExt s s'
   susp : s'.suspended = s.suspended
   lin : s'.linear = s.linear
+  lz : LzOK s'
 
-theorem ErrOut.refl {s : St} (h : WF s) : ErrOut s s := ⟨h.wfd, TExt.refl s, rfl, rfl⟩
+theorem ErrOut.refl {s : St} (h : WF s) (hl : LzOK s) : ErrOut s s := ⟨h.wfd, TExt.refl s, rfl, rfl, hl⟩
 
 theorem ErrOut.pre {s s1 s' : St} (he : TExt s s1) (hs : s1.suspended = s.suspended) (hl : s1.linear = s.linear)
-    (h : ErrOut s1 s') : ErrOut s s' := ⟨h.tab, he.trans h.ext, h.susp.trans hs, h.lin.trans hl⟩
+    (h : ErrOut s1 s') : ErrOut s s' := ⟨h.tab, he.trans h.ext, h.susp.trans hs, h.lin.trans hl, h.lz⟩
 
 theorem ErrOut.faultOK {b : Base} {s s' : St} {top : Act} {rest : List Act} (hr : Running b s top rest) (h : ErrOut s s') :
-    FaultOK b s s' := ⟨h.tab, h.ext, h.susp, by rw [h.lin]; exact hr.lin⟩
+    FaultOK b s s' := ⟨h.tab, h.ext, h.susp, by rw [h.lin]; exact hr.lin, h.lz⟩
 
 /-- the error specifications of the functions of the mutual block, at one fuel -/
 structure ErrSpec (n : Nat) : Prop where
@@ -87,7 +88,7 @@ structure ErrSpec (n : Nat) : Prop where
 
 /-! ## `CallFunction` fails before it changes anything but the variadic tail -/
 
-theorem callFunction_err (f k : Nat) (s s' : St) (hw : WF s) (h : (callFunction f k).run s = (.error .err, s')) :
+theorem callFunction_err (f k : Nat) (s s' : St) (hw : WF s) (hlz : LzOK s) (h : (callFunction f k).run s = (.error .err, s')) :
     ErrOut s s' := by
   unfold callFunction at h
   have key : Tab s s' ∧ s'.suspended = s.suspended ∧ s'.linear = s.linear ∧ s'.loopstack = s.loopstack := by
@@ -114,7 +115,7 @@ theorem callFunction_err (f k : Nat) (s s' : St) (hw : WF s) (h : (callFunction 
             cases h
             exact ⟨htab, hwr.2.1, hwr.1, hwr.2.2⟩
   obtain ⟨ht, h1, h2, h3⟩ := key
-  exact ⟨hw.wfd.same ht.fns ht.loops h3 ht.scopes ht.heap ht.lazies, TExt.same ht.fns ht.loops, h1, h2⟩
+  exact ⟨hw.wfd.same ht.fns ht.loops h3 ht.scopes ht.heap ht.lazies, TExt.same ht.fns ht.loops, h1, h2, hlz.same ht.lazies⟩
 
 /-! ## `runLoop`, `run`, `nested` -/
 
@@ -169,7 +170,7 @@ theorem run_err (n : Nat) (ih : AllSpec n) (ihe : ErrSpec n) (b : Base) (s s' : 
     have hsa : suspAt (captureOf s) s₁ = s.suspended := by
       unfold suspAt captureOf
       simp only [hsu, Nat.lt_irrefl, gt_iff_lt, if_false]
-    refine ⟨WFd.park (WFd.restore (s := s₁) q3.tab _), q1.trans (q3.ext.trans (TExt.same rfl rfl)), hsa, ?_⟩
+    refine ⟨WFd.park (WFd.restore (s := s₁) q3.tab _), q1.trans (q3.ext.trans (TExt.same rfl rfl)), hsa, ?_, q3.lz.same rfl⟩
     show truncate (linAt (captureOf s) s₁) s.linear.length = s.linear
     rw [hla]
     exact truncate_of_suffix _ _ (by rw [← hlin]; exact q3.lin)
@@ -199,7 +200,7 @@ theorem nested_err (n : Nat) (ih : AllSpec n) (ihe : ErrSpec n) (f : Nat) (st : 
       cases r1 with
       | error e =>
         cases hm
-        exact callFunction_err f 0 s s2 hw hc
+        exact callFunction_err f 0 s s2 hw hg.lzok hc
       | ok u =>
         simp only at hm
         have hgd := hw.fns f h2 hlt
@@ -269,7 +270,7 @@ theorem thunk_err (n : Nat) (ihe : ErrSpec n) (name : String) (s1 s' : St) (code
     (st : CtlState) (lin : List (Option Nat)) (susp : List (List (Option Nat)))
     (hgt : NoNil (thunkSt s1 (thunkObj name code cl par) lin susp))
     (hex : (nested n s1.fns.length st).run (thunkSt s1 (thunkObj name code cl par) lin susp) = (.error .err, s')) :
-    ∃ s2, s' = restoreSt st s2 ∧ WFd s2 ∧ TExt s1 s2 ∧ s2.suspended = susp ∧ s2.linear = lin := by
+    ∃ s2, s' = restoreSt st s2 ∧ WFd s2 ∧ TExt s1 s2 ∧ s2.suspended = susp ∧ s2.linear = lin ∧ LzOK s2 := by
   obtain ⟨hw2, hg2⟩ := wf_mkThunk name code cl par hw1 hc hv
   have hw3 : WF (thunkSt s1 (thunkObj name code cl par) lin susp) :=
     hw2.mk' (TExt.same rfl rfl) (fun j h1 h2 => absurd h2 (Nat.not_lt.mpr h1)) hw2.loopstack hw2.scopes hw2.heap hw2.lazies hw2.data
@@ -279,7 +280,7 @@ theorem thunk_err (n : Nat) (ihe : ErrSpec n) (name : String) (s1 s' : St) (code
     rfl
   obtain ⟨s2, h1, h2⟩ := ihe.nested s1.fns.length st _ s' hgt hw3 hw1.two (by simp [thunkSt]) (by rw [hfo]; rfl) rfl hex
   exact ⟨s2, h1, h2.tab,
-    (show TExt s1 (thunkSt s1 (thunkObj name code cl par) lin susp) from ⟨⟨_, rfl⟩, ⟨[], by simp [thunkSt]⟩⟩).trans h2.ext, h2.susp, h2.lin⟩
+    (show TExt s1 (thunkSt s1 (thunkObj name code cl par) lin susp) from ⟨⟨_, rfl⟩, ⟨[], by simp [thunkSt]⟩⟩).trans h2.ext, h2.susp, h2.lin, h2.lz⟩
 
 theorem eval_err (n : Nat) (ih : AllSpec n) (ihe : ErrSpec n) (e : Expr) (s s' : St) (hg : NoNil s) (hw : WF s) (hok : okL e = true)
     (hex : (evalCallExpr (n + 1) e).run s = (.error .err, s')) : ErrOut s s' := by
@@ -290,7 +291,7 @@ theorem eval_err (n : Nat) (ih : AllSpec n) (ihe : ErrSpec n) (e : Expr) (s s' :
     dsimp only at hex
     split at hex
     · simp only [run_pure] at hex; cases hex
-    · cases hex; exact ErrOut.refl hw
+    · cases hex; exact ErrOut.refl hw hg.lzok
   · rw [run_bind, run_get] at hex
     dsimp only at hex
     rw [run_bind] at hex
@@ -301,7 +302,7 @@ theorem eval_err (n : Nat) (ih : AllSpec n) (ihe : ErrSpec n) (e : Expr) (s s' :
       have := runGen_err _ s s1 er hgn
       subst this
       cases hex
-      exact ErrOut.refl hw
+      exact ErrOut.refl hw hg.lzok
     | ok ct =>
       obtain ⟨code, t⟩ := ct
       obtain ⟨hw1, he1, g1, g2, g3, g4, g5, g6, g7, g8, g9, hcode, hver⟩ := wf_runGen (isFnScope s) e code t hw hok hgn
@@ -317,12 +318,12 @@ theorem eval_err (n : Nat) (ih : AllSpec n) (ihe : ErrSpec n) (e : Expr) (s s' :
         rw [run_bind, run_modify] at hex
         dsimp only at hex
         have hg1 : NoNil s1 := hg.same g1 g2 g3 g6 g9
-        obtain ⟨s2, h1, hw2, he2, su2, l2⟩ :=
+        obtain ⟨s2, h1, hw2, he2, su2, l2, lz2⟩ :=
           thunk_err n ihe "callExprEval" s1 s' code _ _ hw1 hcode hver (captureOf s1) s1.linear s1.suspended
             (hg1.same rfl rfl rfl rfl rfl) hex
         obtain ⟨r1, r2⟩ := restore_lin s1 s2 l2 su2
         rw [h1]
-        exact ⟨hw2.restore _, he1.trans (he2.trans (TExt.same rfl rfl)), r2.trans g6, r1.trans g2⟩
+        exact ⟨hw2.restore _, he1.trans (he2.trans (TExt.same rfl rfl)), r2.trans g6, r1.trans g2, lz2.same rfl⟩
 
 /-! ## `prepareArgs` -/
 
@@ -439,7 +440,7 @@ theorem guarded_err (start : Nat) (m : M Unit) (s s' : St)
     | timeout => simp only [run_throw] at h; cases h
 
 theorem ErrOut.setData {s s1 : St} (h : ErrOut s s1) (d : List (Option Val)) : ErrOut s { s1 with data := d } :=
-  ⟨h.tab.same rfl rfl rfl rfl rfl rfl, h.ext.trans (TExt.same rfl rfl), h.susp, h.lin⟩
+  ⟨h.tab.same rfl rfl rfl rfl rfl rfl, h.ext.trans (TExt.same rfl rfl), h.susp, h.lin, h.lz.same rfl⟩
 
 theorem resolved_err (n : Nat) (ih : AllSpec n) (ihe : ErrSpec n) (s s' : St) (f : Val) (args : List Expr) (hg : NoNil s) (hw : WF s)
     (hoa : okLs args = true) (hex : (callResolved (n + 1) f args).run s = (.error .err, s')) : ErrOut s s' := by
@@ -458,7 +459,7 @@ theorem resolved_err (n : Nat) (ih : AllSpec n) (ihe : ErrSpec n) (s s' : St) (f
     | ok u =>
       simp only at hex'
       obtain ⟨hw1, he1, hd1, hl1, ha1, hc1, hp1, hs1⟩ := ih.prep _ _ _ s s1 hw hoa hp
-      exact (callFunction_err fid args.length s1 s2 hw1 hex').pre he1 hs1 hl1
+      exact (callFunction_err fid args.length s1 s2 hw1 (((sSpec n).prep _ _ _ s hg hw hoa _ s1 hp).2 u rfl).lzok hex').pre he1 hs1 hl1
   · rename_i name
     obtain ⟨s2, hex', rfl⟩ := guarded_err _ _ s s' hex
     apply ErrOut.setData
@@ -482,11 +483,12 @@ theorem resolved_err (n : Nat) (ih : AllSpec n) (ihe : ErrSpec n) (s s' : St) (f
     | ok u =>
       simp only at hex'
       obtain ⟨hw1, he1, hd1, hl1, ha1, hc1, hp1, hs1⟩ := ih.prep _ _ _ s s1 hw hoa hp
+      have hlz1 := (((sSpec n).prep _ _ _ s hg hw hoa _ s1 hp).2 u rfl).lzok
       cases hex'
-      exact ⟨hw1.wfd, he1, hs1, hl1⟩
+      exact ⟨hw1.wfd, he1, hs1, hl1, hlz1⟩
   · split at hex
     · simp only [run_bind, run_pushData, run_incPc] at hex; cases hex
-    · cases hex; exact ErrOut.refl hw
+    · cases hex; exact ErrOut.refl hw hg.lzok
 
 /-! ## `callUser` -/
 
@@ -497,7 +499,7 @@ theorem user_err (n : Nat) (ih : AllSpec n) (ihe : ErrSpec n) (name : String) (k
   rw [run_bind, run_get] at hex
   dsimp only at hex
   by_cases h0 : s.data.length < k
-  · simp only [h0, if_true, run_bind, run_err] at hex; cases hex; exact ErrOut.refl hw
+  · simp only [h0, if_true, run_bind, run_err] at hex; cases hex; exact ErrOut.refl hw hg.lzok
   · by_cases h00 : (s.data.take k).any Option.isNone = true
     · simp only [h0, h00, if_true, if_false, run_bind, run_pure, run_hostPanic] at hex; cases hex
     · simp only [h0, h00, if_false, run_bind, run_pure, Bool.false_eq_true] at hex
@@ -544,7 +546,7 @@ theorem user_err (n : Nat) (ih : AllSpec n) (ihe : ErrSpec n) (name : String) (k
             subst h2
             have hb3 := ihe.builtin name vs.reverse s2 s3 hg2 hw2 rfl (fun a ha => hvs a (List.mem_reverse.mp ha)) hb
             obtain ⟨r1, r2⟩ := restore_lin { s with data := s.data.drop k } s3 hb3.lin hb3.susp
-            exact ⟨hb3.tab.restore _, (show TExt s s2 from TExt.same rfl rfl).trans (hb3.ext.trans (TExt.same rfl rfl)), r2, r1⟩
+            exact ⟨hb3.tab.restore _, (show TExt s s2 from TExt.same rfl rfl).trans (hb3.ext.trans (TExt.same rfl rfl)), r2, r1, hb3.lz.same rfl⟩
 
 /-! ## `exec` -/
 
@@ -552,7 +554,7 @@ theorem exec_err (n : Nat) (ih : AllSpec n) (ihe : ErrSpec n) (b : Base) (s s' :
     (hg : NoNil s) (hw : WF s) (hr : Running b s top rest) (hf : (fnOf s s.curfunc).code[s.pc.toNat]? = some i)
     (hex : (exec (n + 1) i).run s = (.error .err, s')) : FaultOK b s s' := by
   by_cases hs : simple i = true
-  · exact faultOK_simple hw hr hf hs n .err hex
+  · exact faultOK_simple hw hr hf hs n .err hex hg.lzok
   · cases i with
     | callArr k =>
       simp only [exec] at hex
@@ -589,7 +591,7 @@ theorem builtin_err (n : Nat) (ih : AllSpec n) (ihe : ErrSpec n) (name : String)
     split at hex
     · exact ihe.force _ s s' hg hw hex
     · simp only [run_pure] at hex; cases hex
-    · cases hex; exact ErrOut.refl hw
+    · cases hex; exact ErrOut.refl hw hg.lzok
   split at hex
   · -- substitute
     split at hex
@@ -597,7 +599,7 @@ theorem builtin_err (n : Nat) (ih : AllSpec n) (ihe : ErrSpec n) (name : String)
       rw [run_bind, run_get] at hex
       dsimp only at hex
       split at hex
-      · cases hex; exact ErrOut.refl hw
+      · cases hex; exact ErrOut.refl hw hg.lzok
       · rename_i lz hlz
         split at hex
         · simp only [run_pure] at hex; cases hex
@@ -605,13 +607,13 @@ theorem builtin_err (n : Nat) (ih : AllSpec n) (ihe : ErrSpec n) (name : String)
           simp only [hq, run_bind, run_set, run_pure] at hex
           cases hex
     · simp only [run_pure] at hex; cases hex
-    · cases hex; exact ErrOut.refl hw
+    · cases hex; exact ErrOut.refl hw hg.lzok
   split at hex
   · -- apply
     split at hex
     · rename_i f coll
       split at hex
-      · cases hex; exact ErrOut.refl hw
+      · cases hex; exact ErrOut.refl hw hg.lzok
       · rw [run_bind, run_get] at hex
         dsimp only at hex
         have hf := ha f (by simp)
@@ -623,15 +625,15 @@ theorem builtin_err (n : Nat) (ih : AllSpec n) (ihe : ErrSpec n) (name : String)
           split at hex
           · rename_i xs hxs
             exact ihe.apply f xs s s' hg hw hpc hf (listToArray_vok _ xs hxs hc) hex
-          · cases hex; exact ErrOut.refl hw
-        · cases hex; exact ErrOut.refl hw
-    · cases hex; exact ErrOut.refl hw
+          · cases hex; exact ErrOut.refl hw hg.lzok
+        · cases hex; exact ErrOut.refl hw hg.lzok
+    · cases hex; exact ErrOut.refl hw hg.lzok
   split at hex
   · -- map
     split at hex
     · rename_i f coll
       split at hex
-      · cases hex; exact ErrOut.refl hw
+      · cases hex; exact ErrOut.refl hw hg.lzok
       · have hf := ha f (by simp)
         have hc := ha coll (by simp)
         split at hex
@@ -651,14 +653,14 @@ theorem builtin_err (n : Nat) (ih : AllSpec n) (ihe : ErrSpec n) (name : String)
             cases hex
         · rename_i a b
           exact ihe.mapList f _ s s' hg hw hpc hf hc hex
-        · cases hex; exact ErrOut.refl hw
-    · cases hex; exact ErrOut.refl hw
+        · cases hex; exact ErrOut.refl hw hg.lzok
+    · cases hex; exact ErrOut.refl hw hg.lzok
   · -- the pure builtins
     rw [run_bind, run_get] at hex
     dsimp only at hex
     split at hex
     · simp only [run_bind, run_set, run_pure] at hex; cases hex
-    · cases hex; exact ErrOut.refl hw
+    · cases hex; exact ErrOut.refl hw hg.lzok
 
 /-! ## `applyFn`, `mapArr`, `mapList` -/
 
@@ -709,7 +711,7 @@ theorem apply_err (n : Nat) (ih : AllSpec n) (ihe : ErrSpec n) (f : Val) (args :
           rcases hc : (callFunction fid args.length).run s2 with ⟨r1, s3⟩
           rw [hc] at hm
           cases r1 with
-          | error e => cases hm; exact callFunction_err fid args.length s2 s4 hw2 hc
+          | error e => cases hm; exact callFunction_err fid args.length s2 s4 hw2 hg2.lzok hc
           | ok u =>
             simp only at hm
             have hid2 : fid < s2.fns.length := by rw [f2]; exact hvf.2
@@ -732,8 +734,8 @@ theorem apply_err (n : Nat) (ih : AllSpec n) (ihe : ErrSpec n) (f : Val) (args :
             have := ihe.run b s3 s4 _ hg3 hw3 hrun rfl rfl (by show s.linear = s3.linear; rw [c4, li2]) hm
             exact this.pre (TExt.same c6 c7) c5 c4
         obtain ⟨r1, r2⟩ := restore_lin s s4 (hout.lin.trans li2) (hout.susp.trans su2)
-        exact ⟨hout.tab.restore _, he2.trans (hout.ext.trans (TExt.same rfl rfl)), r2, r1⟩
-  · cases hex; exact ErrOut.refl hw
+        exact ⟨hout.tab.restore _, he2.trans (hout.ext.trans (TExt.same rfl rfl)), r2, r1, hout.lz.same rfl⟩
+  · cases hex; exact ErrOut.refl hw hg.lzok
 
 theorem ErrOut.ofKept {s s1 s' : St} (hk : Kept s s1) (h : ErrOut s1 s') : ErrOut s s' :=
   h.pre hk.ext hk.same.susp hk.same.linear
@@ -796,7 +798,7 @@ theorem mapList_err (n : Nat) (ih : AllSpec n) (ihe : ErrSpec n) (f l : Val) (s 
         exact ErrOut.ofKept hk1 (ihe.mapList f b s1 s' (((sSpec n).apply f [a] s hg hw hpc hvf harg _ s1 ha).2 w rfl) hk1.wf (hk1.same.pc.trans hpc) (kept_vok_mono hk1 hvf)
           (kept_vok_mono hk1 hvl.2) hm)
       | ok t => simp only [run_pure] at hex; cases hex
-  · cases hex; exact ErrOut.refl hw
+  · cases hex; exact ErrOut.refl hw hg.lzok
 
 /-! ## `forceLazy` -/
 
@@ -815,7 +817,7 @@ theorem force_err (n : Nat) (ih : AllSpec n) (ihe : ErrSpec n) (id : Nat) (s s' 
   rw [run_bind, run_get] at hex
   dsimp only at hex
   split at hex
-  · cases hex; exact ErrOut.refl hw
+  · cases hex; exact ErrOut.refl hw hg.lzok
   · rename_i lz hlz
     have hmem : lz ∈ s.lazies := List.mem_of_getElem? hlz
     have hlzm := hw.lazies lz hmem
@@ -832,7 +834,7 @@ theorem force_err (n : Nat) (ih : AllSpec n) (ihe : ErrSpec n) (id : Nat) (s s' 
         have := runGen_err _ s s1 er hgn
         subst this
         cases hex
-        exact ErrOut.refl hw
+        exact ErrOut.refl hw hg.lzok
       | ok ct =>
         obtain ⟨code, t⟩ := ct
         obtain ⟨hw1, he1, g1, g2, g3, g4, g5, g6, g7, g8, g9, hcode, hver⟩ := wf_runGen (isFnScope s) lz.e code t hw hlzm.1 hgn
@@ -853,12 +855,12 @@ theorem force_err (n : Nat) (ih : AllSpec n) (ihe : ErrSpec n) (id : Nat) (s s' 
             · exact hg1.good.linear
             · exact hg1.good.susp l hl
           rcases bind_err_inv _ _ _ _ _ hex with hn | ⟨w, s4, hn, hfin⟩
-          · obtain ⟨s3, h1, hw3, he3, su3, l3⟩ :=
+          · obtain ⟨s3, h1, hw3, he3, su3, l3, lz3⟩ :=
               thunk_err n ihe "lazyArgForce" s1 s' code lz.stack (some lz.curfunc) hw1 hcode hver
                 (captureOf s1) lz.stack (s1.linear :: s1.suspended) hgt hn
             obtain ⟨r1, r2⟩ := restore_lin_force s1 s3 su3
             rw [h1]
-            exact ⟨hw3.restore _, he1.trans (he3.trans (TExt.same rfl rfl)), r2.trans g6, r1.trans g2⟩
+            exact ⟨hw3.restore _, he1.trans (he3.trans (TExt.same rfl rfl)), r2.trans g6, r1.trans g2, lz3.same rfl⟩
           · simp only [run_bind, run_modify, run_pure] at hfin; cases hfin
 
 /-! ## The induction on the fuel -/
